@@ -685,6 +685,61 @@ def stage_mixed_elements_sweep(ctx: Ctx):
                         ctx.violation(f'accepted-invalid|sweep-multiline-commented-code|{type(node.a).__name__}.{hfld}', 'an edit that was accepted left a tree that does not re-parse to itself', {**rec, 'src_after': m.src, 'diffs': d})
 
 
+def stage_accessor_refusals(ctx: Ctx):
+    """deterministic: the dedicated accessors with arguments they must refuse - put_docstr() with text that is not text (bytes, numbers, objects, lists with a non-string), with and without
+    reput, on definitions with and without a docstring; put_line_comment() with a comment that spans lines or (full=True) lacks its '#': a call that raises leaves source and tree exactly
+    as they were and the next edit is admitted"""
+    import fst
+    progs = ['def f():\n    """doc"""\n    return 1\n', 'class K:\n    \'\'\'doc\n    two\'\'\'\n    x = 1\n', '"""mod doc"""\nimport a\n', 'def g(): pass\n', 'async def h():\n    "d"\n']
+    bad_texts = [b'doc', 123, 1.5, object(), ['a', 1], ('a', b'b'), {'a': 1}.keys() if False else 3j, True]
+    for src in progs:
+        for bad in bad_texts:
+            for kw in ({}, {'reput': True}, {'reput': False}):
+                root = fst.FST(src, 'exec')
+                node = root.body[0] if isinstance(root.body[0].a, (ast.FunctionDef, ast.AsyncFunctionDef, ast.ClassDef)) else root
+                before = (root.src, ast.dump(root.a, include_attributes=True))
+                rec = {'src': src, 'call': f'put_docstr({bad!r}, **{kw})'}
+                try:
+                    node.put_docstr(bad, **kw)
+                    err = None
+                except Exception as e:
+                    err = e
+                ctx.tick(('docstr-refusal', src, repr(bad)[:20], str(kw)), 'accessor-refusal:' + ('raise' if err is not None else 'ok'))
+                if err is not None:
+                    if (root.src, ast.dump(root.a, include_attributes=True)) != before:
+                        ctx.violation(f'failed-but-changed|put_docstr|{type(err).__name__}', 'put_docstr() raised and left the source or the tree changed', {**rec, 'error': repr(err)[:200], 'after_src': root.src})
+                        continue
+                    try:
+                        node.put_docstr('next')
+                        d = reparse_diffs(root)
+                    except Exception as e:
+                        d = [f'the next edit raised {e!r}'[:200]]
+                    if d:
+                        ctx.violation('failed-then-stuck|put_docstr', 'after a refused put_docstr() the next edit is not admitted or gives a wrong tree', {**rec, 'diffs': d[:3]})
+                else:
+                    d = reparse_diffs(root)
+                    if d:
+                        ctx.violation('accepted-inconsistent|put_docstr', 'put_docstr() accepted a value and left a tree that differs from the parse of its source', {**rec, 'after_src': root.src, 'diffs': d[:3]})
+    for src in ['x = 1  # c\ny = 2\n', 'if a:  # h\n    b  # c\n']:
+        for bad, full in [('two\nlines', False), ('no hash', True), (5, False), (b'c', False), ('# a\n# b', True)]:
+            root = fst.FST(src, 'exec')
+            node = root.body[0]
+            before = (root.src, ast.dump(root.a, include_attributes=True))
+            rec = {'src': src, 'call': f'put_line_comment({bad!r}, full={full})'}
+            try:
+                node.put_line_comment(bad, full=full)
+                err = None
+            except Exception as e:
+                err = e
+            ctx.tick(('comment-refusal', src, repr(bad), full), 'accessor-refusal:' + ('raise' if err is not None else 'ok'))
+            if err is not None and (root.src, ast.dump(root.a, include_attributes=True)) != before:
+                ctx.violation(f'failed-but-changed|put_line_comment|{type(err).__name__}', 'put_line_comment() raised and left the source or the tree changed', {**rec, 'error': repr(err)[:200], 'after_src': root.src})
+            elif err is None:
+                d = reparse_diffs(root)
+                if d:
+                    ctx.violation('accepted-inconsistent|put_line_comment', 'put_line_comment() accepted a value and left a tree that differs from the parse of its source', {**rec, 'after_src': root.src, 'diffs': d[:3]})
+
+
 def run(ctx: Ctx):
     ctx.rule = ('fault sequences: histories mixing invalid requests (15 fault kinds: unparsable code, wrong category with coerce=False, index/slice out of '
                 'range, bad/unknown options, consumed or non-root FST as code, to= without raw, deletion of required fields, ordering violations) and '
@@ -702,6 +757,7 @@ def run(ctx: Ctx):
     run_guarded(ctx, stage_option_sweep)
     run_guarded(ctx, stage_falsy_and_order_sweep)
     run_guarded(ctx, stage_mixed_elements_sweep)
+    run_guarded(ctx, stage_accessor_refusals)
 
 
 def replay(path):
